@@ -47,6 +47,20 @@ sys.exit(common.replay_exit(bad))
 '''
 
 
+REPLAY_SOLVER = common.REPLAY_HEADER + '''
+common.use_repo_with_build()
+import types
+from pysph.solver.solver import Solver
+log = []
+s = Solver.__new__(Solver)
+s.particles = [object(), object()]
+s.nnps = types.SimpleNamespace(spatially_order_particles=lambda i: log.append(("order", i)), update=lambda: log.append(("update",)))
+s.reorder_particles()
+print(log)
+sys.exit(common.replay_exit(None if log == [("order", 0), ("order", 1), ("update",)] else "reorder_particles did %r" % (log,)))
+'''
+
+
 def unit_linked_list(dim, n, tags, deadline_s=150):
     common.use_repo()
     stats = Stats()
@@ -203,8 +217,10 @@ def unit_reorder_then_update():
     if log == [("order", 0), ("order", 1), ("update",)]:
         out["discharged"] = 1
     else:
-        out.setdefault("harness_errors", []).append(
-            "reorder_particles did %r" % (log,))
+        p = common.write_replay(PID, "reorder_particles", REPLAY_SOLVER)
+        common.triage(PID, out, "Solver.reorder_particles did %r instead of "
+                      "re-ordering array 0, array 1 and then updating" %
+                      (log,), p, dict(unit="Solver.reorder_particles"))
     out["stats"] = Stats().as_dict()
     return out
 
